@@ -17,10 +17,12 @@ from common import VERIF, Ctx, InfraError  # noqa: E402
 ENTRY = "DriverC09.lean"
 PROPS = "QuriVerif.Props.C09"
 PROPS_REAL = "QuriVerif.Props.C09Real"
-LEAN_TARGETS = [PROPS, "QuriVerif.Driver.C09"]
+PROPS_LIFT = "QuriVerif.Props.C09Lift"
+LEAN_TARGETS = [PROPS, PROPS_LIFT, "QuriVerif.Driver.C09"]
 LEAN_TARGETS_THOROUGH = [PROPS_REAL]
 FINDING_F6 = "combine-same-subcircuit-shared-raw-params"
 HALF_PI = math.pi / 2
+EPS = 2.3e-16
 
 TRUSTED = [
     "Lean 4.33 kernel incl. `decide +kernel` on the two concrete witness / non-vacuity computations; axioms audited ⊆ "
@@ -37,7 +39,8 @@ TRUSTED = [
     "matrices) is the documented gate form of gates.py (PauliRotation/RX/RY/RZ = cos(φ/2) − i sin(φ/2) P); validated "
     "numerically by the value comparison against oracle/dense.py",
     "floats: the model computes with rationals; the correspondence uses dyadic inputs on which the code's float "
-    "arithmetic is exact, rounding of general float inputs is outside the model (value checks use 1e-7)",
+    "arithmetic is exact (per input parameter one power-of-two unit 2^-40 … 2^10 on all its coefficients), rounding of general float "
+    "inputs is outside the model (value checks: per entry, 1e-11 of the entry's natural size onorm·Σ|M_li| plus angle round-off)",
     "installed quri_parts.rust 0.27 binary provides Parameter / ParametricQuantumCircuit / bind_parameters (not built from /repo)",
     "correspondence harness harness/c09.py, driver Driver/C09.lean (parsing/printing), oracle/c09deriv.py + oracle/dense.py",
 ]
@@ -150,6 +153,30 @@ def gen_spec(rng, P=None, min_param_gates=0, max_len=6, max_n=3):
             else:
                 gates.append({"k": "H", "t": [0]})
     return {"n": n, "P": P, "gates": gates, "op": gen_op(rng, n)}
+
+
+DYADIC_UNITS = [Fraction(1, 2 ** 30), Fraction(1, 2 ** 34), Fraction(1, 2 ** 40), Fraction(1, 2 ** 20), Fraction(2 ** 10)]
+
+
+def dyadic_units(rng, P, p_unit=0.6):
+    """per input parameter a power-of-two unit (2^-40 ... 2^10; mostly 1).  ALL coefficients of one parameter get the same unit,
+    so every sum the code forms (coefficients of one shift set, raw angles) stays exact in floats and the correspondence with the
+    rational model stays exact, while single coefficients are as small as 9.1e-13 or as large as 1024."""
+    return [Fraction(1) if rng.random() < p_unit else rng.choice(DYADIC_UNITS) for _ in range(P)]
+
+
+def apply_units_spec(spec, units):
+    for g in spec["gates"]:
+        if "ang" not in g:
+            continue
+        ang = g["ang"]
+        if "p" in ang:
+            if units[ang["p"]] != 1:
+                g["ang"] = {"f": [[ang["p"], list(_nd(units[ang["p"]]))]]}
+        else:
+            for item in ang["f"]:
+                if item[0] != "c":
+                    item[1] = list(_nd(Fraction(*item[1]) * units[item[0]]))
 
 
 def primitive_spec(rng):
@@ -1021,6 +1048,7 @@ def k_circuits(ctx: Ctx, n_cases: int):
             if r < 0.55:
                 spec = gen_spec(rng)
                 spec["build"] = random_build_options(rng)
+                apply_units_spec(spec, dyadic_units(rng, spec["P"]))
                 c = build_real(spec)
                 what = "linear"
             elif r < 0.67:
@@ -1030,6 +1058,11 @@ def k_circuits(ctx: Ctx, n_cases: int):
                 what = "primitive"
             elif r < 0.88:
                 spec = concat_case(rng)
+                for part in spec["build"]["parts"]:
+                    if part["build"].get("kind") != "primitive":
+                        apply_units_spec(part, dyadic_units(rng, part["P"], 0.75))
+                cat = concat_specs(spec["build"]["parts"][0], spec["build"]["parts"][1])
+                spec["gates"], spec["P"] = cat["gates"], cat["P"]
                 c = build_real(spec)
                 what = "combined"
             else:
@@ -1106,6 +1139,14 @@ def gen_direct(rng):
             if rng.random() < 0.5:
                 f.insert(rng.randint(0, len(f)), ("c", dyadic(rng)))
             entries.append((r, ("F", f)))
+    units = {k: u for k, u in zip(pool, dyadic_units(rng, len(pool), 0.7))}
+    scaled = []
+    for r, (tag, v) in entries:
+        if tag == "P":
+            scaled.append((r, ("P", v) if units.get(v, 1) == 1 else ("F", [(v, units[v])])))
+        else:
+            scaled.append((r, ("F", [(k, c * units.get(k, 1)) for k, c in v])))
+    entries = scaled
     vals = [dyadic(rng) for _ in ins]
     if rng.random() < 0.1 and vals:
         vals = vals[:-1]
@@ -1261,7 +1302,17 @@ def validate_one(ctx: Ctx, spec, c, flavour, theta, est, worst, choose, theta_fo
     case = describe_case(spec, theta, flavour, theta_form=theta_form if theta_form != "list" else None, **(more or {}))
     gt, ht = c09deriv.grad_hess(spec, theta, want_hess=True)
     onorm = sum(abs(complex(*cc)) for _, cc in spec["op"])
-    scale = 1.0 + onorm * (1.0 + max([sum(abs(float(x)) for x in row) for row in c09deriv.mapping_matrix(spec)[0]] + [0.0])) ** 2
+    # Tolerances are RELATIVE, per entry: entry i of the gradient is sum_l M_li * dE/dphi_l with |dE/dphi_l| <= sum|op coef| =: onorm,
+    # so its natural size is s_i = onorm * sum_l|M_li| (whatever the units of theta_i or of the operator); Hessian entry (i, j):
+    # s_i * s_j / onorm.  Float round-off of the shift rule / of an exact estimator is a few ulp of that size, plus the effect of
+    # rounding the raw angles themselves (<= ulp * A each, A = largest sum_i|M_li theta_i| + |b_l|).  Everything beyond `rel` of the
+    # natural size is an error -- a contribution is never small "absolutely".
+    rows, bs = c09deriv.mapping_matrix(spec)
+    m_gates = max(len(rows), 1)
+    col = [sum(abs(float(r[i])) for r in rows) for i in range(P)]
+    amax = max([sum(abs(float(r[i]) * theta[i]) for i in range(P)) + abs(float(b0)) for r, b0 in zip(rows, bs)] + [0.0])
+    rel = 1e-11 + 64 * EPS * amax * m_gates
+    tol_g = [onorm * col[i] * rel for i in range(P)]
     try:
         if choose():
             g = G.parameter_shift_gradient_estimates(op, state, tobj, est)
@@ -1271,11 +1322,18 @@ def validate_one(ctx: Ctx, spec, c, flavour, theta, est, worst, choose, theta_fo
     except Exception as e:  # noqa: BLE001
         ctx.witness("gradient-raises", f"parameter-shift gradient raises {exc_name(e)} on a well-formed circuit", case)
         return
-    dg = float(np.max(np.abs(gv - gt))) if P and len(gv) == P else 0.0
-    worst["grad"] = max(worst["grad"], dg / scale)
-    if len(gv) != P or dg > 1e-7 * scale:
-        ctx.witness("gradient-value", f"parameter-shift gradient differs from the analytic derivative by {dg:.3g}", case,
-                    {"real": [str(x) for x in gv], "analytic": [str(x) for x in gt]})
+    if len(gv) != P:
+        ctx.witness("gradient-value", f"parameter-shift gradient has {len(gv)} entries for {P} parameters", case)
+        return
+    for i in range(P):
+        err = abs(gv[i] - gt[i])
+        if onorm * col[i] > 0:
+            worst["grad"] = max(worst["grad"], err / (onorm * col[i]))
+        if err > tol_g[i]:
+            ctx.witness("gradient-value", f"parameter-shift gradient entry {i} is {gv[i]:.6g}, the analytic derivative is {gt[i]:.6g} "
+                        f"(relative error {err / max(abs(gt[i]), 1e-300):.3g}; tolerance {tol_g[i]:.3g} = {rel:.2g} of the entry's natural size)", case,
+                        {"index": i, "real": [str(x) for x in gv], "analytic": [str(x) for x in gt], "tolerance": tol_g})
+            break
     if P <= 5 and len(c09deriv.param_gates(spec)) <= 6:
         try:
             if choose():
@@ -1286,15 +1344,26 @@ def validate_one(ctx: Ctx, spec, c, flavour, theta, est, worst, choose, theta_fo
         except Exception as e:  # noqa: BLE001
             ctx.witness("hessian-raises", f"parameter-shift Hessian raises {exc_name(e)} on a well-formed circuit", case)
             return
-        dh = float(np.max(np.abs(hv - ht))) if P else 0.0
-        ds = float(np.max(np.abs(hv - hv.T))) if P else 0.0
-        worst["hess"] = max(worst["hess"], dh / scale)
-        worst["symm"] = max(worst["symm"], ds / scale)
-        if dh > 1e-7 * scale:
-            ctx.witness("hessian-value", f"parameter-shift Hessian differs from the analytic second derivative by {dh:.3g}", case,
-                        {"real": [[str(x) for x in row] for row in hv], "analytic": [[str(x) for x in row] for row in ht]})
-        if ds > 1e-9 * scale:
-            ctx.witness("hessian-asymmetric", f"parameter-shift Hessian is not symmetric (|H − Hᵀ| = {ds:.3g})", case)
+        bad_h = bad_s = None
+        for i in range(P):
+            for j in range(P):
+                size = onorm * col[i] * col[j]
+                eh, es = abs(hv[i, j] - ht[i, j]), abs(hv[i, j] - hv[j, i])
+                if size > 0:
+                    worst["hess"] = max(worst["hess"], eh / size)
+                    worst["symm"] = max(worst["symm"], es / size)
+                if eh > size * rel and bad_h is None:
+                    bad_h = (i, j, eh, size * rel)
+                if es > size * rel and bad_s is None:
+                    bad_s = (i, j, es, size * rel)
+        if bad_h is not None:
+            i, j, eh, tol = bad_h
+            ctx.witness("hessian-value", f"parameter-shift Hessian entry ({i},{j}) is {hv[i, j]:.6g}, the analytic second derivative is "
+                        f"{ht[i, j]:.6g} (relative error {eh / max(abs(ht[i, j]), 1e-300):.3g}; tolerance {tol:.3g} = {rel:.2g} of the entry's natural size)", case,
+                        {"index": [i, j], "real": [[str(x) for x in row] for row in hv], "analytic": [[str(x) for x in row] for row in ht]})
+        if bad_s is not None:
+            i, j, es, tol = bad_s
+            ctx.witness("hessian-asymmetric", f"parameter-shift Hessian is not symmetric: |H[{i}][{j}] - H[{j}][{i}]| = {es:.3g}, tolerance {tol:.3g}", case)
     # numerical gradient: |error| ≤ L3·δ²/24 (+ round-off) with L3 a rigorous bound on the third derivative,
     # i.e. it converges to the same values as δ decreases (a negative step is the same central difference)
     l3 = c09deriv.third_derivative_bound(spec)
@@ -1312,7 +1381,14 @@ def validate_one(ctx: Ctx, spec, c, flavour, theta, est, worst, choose, theta_fo
             ctx.witness("numerical-gradient-value", f"numerical gradient has {len(nv)} entries for {P} parameters", case)
             break
         for i in range(P):
-            bound = l3[i] * delta * delta / 24 + 1e-8 * (1 + onorm) * scale
+            # truncation (delta^2/24) * |third derivative|  +  round-off of the two estimates / |delta|  +  rounding of
+            # theta_i +- delta/2 itself (matters for |theta_i| >> |delta|); all relative to the operator / coefficient scales
+            bound = (l3[i] * delta * delta / 24 + 2 * onorm * (1e-13 + 16 * EPS * amax * m_gates) / abs(delta)
+                     + onorm * col[i] * 8 * EPS * (abs(theta[i]) + abs(delta)) / abs(delta))
+            if bound == 0.0:
+                if nv[i] != gt[i]:
+                    ctx.witness("numerical-gradient-value", f"numerical gradient (delta={delta}) entry {i} is {nv[i]} where the derivative is identically 0", case)
+                continue
             err = abs(nv[i] - gt[i])
             worst["num_ratio"] = max(worst["num_ratio"], err / bound)
             if err > bound:
@@ -1389,8 +1465,50 @@ def general_coefs(rng, spec):
                     if item[0] == "c":
                         x = rng.uniform(-7, 7)
                     else:
-                        x = rng.choice([rng.uniform(-2.5, 2.5), 1e-3 * rng.uniform(-1, 1), rng.uniform(4, 7), float(rng.randint(-3, 3))])
+                        x = rng.choice([rng.uniform(-2.5, 2.5), 1e-3 * rng.uniform(-1, 1), rng.uniform(4, 7), float(rng.randint(-3, 3)),
+                                        rng.choice([-1, 1]) * rng.uniform(1, 10) * 10.0 ** rng.randint(-12, 4)])
                     item[1] = list(_nd(Fraction(x)))
+
+
+UNIT_SCALES = [1e-12, 1e-10, 2e-9, 5e-9, 1e-8, 3e-8, 1e-7, 1e-6, 1e-4, 1e-2, 1e2, 1e3, 1e6]
+
+
+def rescale_params(rng, spec):
+    """the same circuit with its parameters expressed in other units: every coefficient of theta_i is multiplied by sigma_i
+    (1e-12 ... 1e6; a bare parameter becomes {p: sigma}); the caller divides the parameter point by sigma, so all gate angles and
+    the size of every contribution stay O(1) while coefficients and parameter values do not.  Returns the sigmas."""
+    sig = []
+    for _ in range(spec["P"]):
+        r = rng.random()
+        sig.append(1.0 if r < 0.25 else rng.choice(UNIT_SCALES) if r < 0.65 else rng.uniform(1, 10) * 10.0 ** rng.randint(-12, 5))
+    for g in spec["gates"]:
+        if "ang" not in g:
+            continue
+        ang = g["ang"]
+        if "p" in ang:
+            if sig[ang["p"]] != 1.0:
+                g["ang"] = {"f": [[ang["p"], list(_nd(Fraction(sig[ang["p"]])))]]}
+        else:
+            for item in ang["f"]:
+                if item[0] != "c":
+                    item[1] = list(_nd(Fraction(float(Fraction(*item[1])) * sig[item[0]])))
+    return sig
+
+
+def rescale_case(rng, spec):
+    """rescale_params on a whole case (for a concatenation: on its linear-mapped parts); sets spec["sigma"]"""
+    b = spec.get("build") or {}
+    if b.get("kind") == "primitive":
+        return
+    if b.get("kind") == "concat":
+        sig = []
+        for part in b["parts"]:
+            sig += [1.0] * part["P"] if (part.get("build") or {}).get("kind") == "primitive" else rescale_params(rng, part)
+        refresh_concat(spec)
+    else:
+        sig = rescale_params(rng, spec)
+    if any(x != 1.0 for x in sig):
+        spec["sigma"] = sig
 
 
 def refresh_concat(spec):
@@ -1433,6 +1551,11 @@ def gen_case(rng):
                     general_coefs(rng, p)
             refresh_concat(spec)
         flavour = "combined:" + "+".join(p["build"].get("kind", "linear") for p in spec["build"]["parts"]) + ":" + spec["build"]["how"]
+    if rng.random() < 0.3:
+        rescale_case(rng, spec)
+    if rng.random() < 0.25:
+        f = 10.0 ** rng.randint(-6, 9)  # the operator in other units
+        spec["op"] = [[term, [c[0] * f, c[1] * f]] for term, c in spec["op"]]
     q = rng.random()
     if q < 0.12:
         term = [(k, rng.randint(1, 3)) for k in range(spec["n"]) if rng.random() < 0.7]
@@ -1466,6 +1589,14 @@ def validate(ctx: Ctx, budget_s: float, max_cases: int):
         else:
             theta = [float(dyadic(rng)) if rng.random() < 0.3 else rng.uniform(-7, 7) for _ in range(P)]
             theta_form = rng.choice(THETA_FORMS) if rng.random() < 0.3 else "list"
+        sig = spec.get("sigma") or [1.0] * P
+        if "sigma" in spec:
+            if theta_form in INT_THETA_FORMS and theta_form != "mixed":
+                theta_form = rng.choice(THETA_FORMS)
+            theta = [t / x for t, x in zip(theta, sig)]
+            ctx.count("validate_units", "rescaled")
+            for x in sig:
+                ctx.count("validate_coefficient_decade", str(int(math.floor(math.log10(x)))))
         hermitian = all(cc[1] == 0.0 for _, cc in spec["op"])
         if pool and rng.random() < 0.45:
             ename, est = rng.choice(pool)
@@ -1494,7 +1625,8 @@ def validate(ctx: Ctx, budget_s: float, max_cases: int):
             elif m < 0.5:
                 # the same state and create_* estimator objects at three points (the first one twice)
                 c = build_real(spec)
-                other = [t + rng.uniform(0.3, 1.3) for t in theta] if theta_form not in INT_THETA_FORMS or theta_form == "mixed" else [t + 1.0 for t in theta]
+                other = ([t + rng.uniform(0.3, 1.3) / x for t, x in zip(theta, sig)] if theta_form not in INT_THETA_FORMS or theta_form == "mixed"
+                         else [t + 1.0 for t in theta])
                 reuse = {}
                 ctx.count("validate_history", "same-objects-3-points")
                 for j, th in enumerate((theta, other, theta)):
@@ -1738,7 +1870,7 @@ def run(ctx: Ctx, replay=None) -> int:
                 "gradient.py / hessian.py / numerical gradient with an exact integer mock estimator vs the Lean model, all exact "
                 "(rationals); distinct = distinct (mapping, values); nontrivial = at least one shift term. Plus oracle validation "
                 "(counted in evaluations only): real gradient / Hessian / numerical gradient with an exact estimator vs "
-                "generator-insertion derivatives of oracle/c09deriv.py to 1e-7, Hessian symmetry, δ² error bound for δ = 1e-2, ±1e-3, 1e-4; "
+                "generator-insertion derivatives of oracle/c09deriv.py, per entry RELATIVE to its natural size (coefficients / parameter values / operator rescaled over 1e-12 … 1e6 with O(1) angles), Hessian symmetry, δ² error bound for δ = 1e-2, ±1e-3, 1e-4; "
                 "circuits by construction recipe (lazy / single parameter declaration, int coefficients, arbitrary float coefficients, "
                 "A + B / extend / += / combine of linear-mapped and plain parametric parts, frozen / mutable copies), parameter points "
                 "as list / tuple / ndarray / numpy scalars / ints / int arrays, operators as Operator / bare PauliLabel / identity / zero, "
@@ -1747,7 +1879,7 @@ def run(ctx: Ctx, replay=None) -> int:
                 "check, is_trivial_mapping on well-formed mappings, NotImplementedError for a non-parametric primitive state")
     ctx.trusted = TRUSTED
     ctx.assumptions = ASSUMPTIONS
-    mods = [PROPS] if ctx.quick() else [PROPS, PROPS_REAL]
+    mods = [PROPS, PROPS_LIFT] if ctx.quick() else [PROPS, PROPS_REAL, PROPS_LIFT]
     ok = ctx.prove(mods + ["QuriVerif.Driver.C09"], mods)
     if ok:
         names = [f"QV.{m.split('.', 1)[1]}.{n}" for m, n, _ in ctx.count_obligations(mods)]
